@@ -261,7 +261,8 @@ macro_rules! seq_cor {
 seq_cor!(Vec, "Vec", false, []);
 seq_cor!(VecDeque, "VecDeque", false, []);
 seq_cor!(LinkedList, "LinkedList", false, []);
-seq_cor!(BTreeSet, "BTreeSet", false, [+ Ord]);
+// sets and maps have no wire order of their own (a BTree* re-sorts what it receives)
+seq_cor!(BTreeSet, "BTreeSet", true, [+ Ord]);
 seq_cor!(HashSet, "HashSet", true, [+ Eq + std::hash::Hash]);
 seq_cor!(BinaryHeap, "BinaryHeap", true, [+ Ord]);
 
@@ -305,7 +306,7 @@ macro_rules! map_cor {
         }
     };
 }
-map_cor!(BTreeMap, "BTreeMap", false, [+ Ord]);
+map_cor!(BTreeMap, "BTreeMap", true, [+ Ord]);
 map_cor!(HashMap, "HashMap", true, [+ Eq + std::hash::Hash]);
 
 macro_rules! wrapper_cor {
@@ -460,6 +461,9 @@ pub struct Entry {
     pub export: fn() -> Result<String, String>,
     /// `IDLValue::try_from_candid_type(&small()[i])` as a model value, with the value's own abstract value
     pub try_from: fn(usize) -> Result<(Val, Val), String>,
+    /// native decoding under (decoding quota, skipping quota); returns the outcome and, on
+    /// success, the cost reported by `compute_cost` for the quotas that were set
+    pub decode_cfg: fn(&[u8], Option<usize>, Option<usize>) -> (Native, Option<usize>, Option<usize>),
 }
 
 /// order-insensitive canonical form (sort every vector)
@@ -601,6 +605,34 @@ fn try_from<T: Cor>(i: usize) -> Result<(Val, Val), String> {
     }
 }
 
+fn decode_cfg<T: Cor>(b: &[u8], dq: Option<usize>, sq: Option<usize>) -> (Native, Option<usize>, Option<usize>) {
+    let mut cfg = candid::DecoderConfig::new();
+    if let Some(q) = dq {
+        cfg.set_decoding_quota(q);
+    }
+    if let Some(q) = sq {
+        cfg.set_skipping_quota(q);
+    }
+    match catch(|| candid::utils::decode_args_with_config_debug::<(T,)>(b, &cfg)) {
+        Err(p) => (Native::Panic(p), None, None),
+        Ok(Err(e)) => (Native::Err(e2s_full(e)), None, None),
+        Ok(Ok(((x,), cost))) => (Native::Ok { val: x.to_val(), reencoded: Err("n/a".into()) }, cost.decoding_quota, cost.skipping_quota),
+    }
+}
+
+/// all lines of the error chain on one line (quota errors sit below the context lines)
+fn e2s_full<E: std::fmt::Debug + std::fmt::Display>(e: E) -> String {
+    let s = format!("{e:?}");
+    let s: String = s.split_whitespace().collect::<Vec<_>>().join(" ");
+    // the root cause is the last line of the chain
+    let n = s.chars().count();
+    if n > 500 {
+        format!("{} ... {}", s.chars().take(120).collect::<String>(), s.chars().skip(n - 380).collect::<String>())
+    } else {
+        s
+    }
+}
+
 fn model_ty<T: Cor>() -> (Env, Ty) {
     let mut env = Env::new();
     let t = T::to_ty(&mut env);
@@ -623,6 +655,7 @@ pub fn entry<T: Cor>() -> Entry {
         memo_probe: || format!("{:?}", candid::types::internal::find_type(&candid::types::TypeId::of::<T>())),
         export: export::<T>,
         try_from: try_from::<T>,
+        decode_cfg: decode_cfg::<T>,
     }
 }
 
